@@ -8,14 +8,21 @@
    * `compiled_equiv` : whenever two statements have the same source-level meaning, the code the
      generator emits for them ends in the same memory, X, Y, SP from every state — instantiated for
      each law above (`compiled_comm`, `compiled_opassign`, `compiled_incr`)
-  Not proved: the rewrites that need control flow, arrays or calls (if/else swap with negated
-  condition, a < b vs b > a, for vs while, switch vs if-chain, register vs constant index, call vs
-  body in place); they are decided by metamorphic co-execution in the check (partial).
+   * stage 2 (structured programs of C01's fragment, any nesting, every layout, state): source laws
+     `if_else_swap_law` (if (c) A else B ≡ if (!c) B else A), `compare_swap_law` (a < b ≡ b > a, all six
+     operators, in if / if-else / while / do-while / for), `for_while_law` (for (i;c;u) S ≡ i; while (c)
+     {S; u;}), `while_dowhile_law` (while (c) S ≡ if (c) do S while (c)); `Sem.det` (the meaning is a
+     partial function); `same_meaning_same_behaviour`: two programs with the same meaning compile to
+     code whose runs both end, in the same memory, X, Y, SP untouched — instantiated per law
+     (`compiled_if_else_swap`, `compiled_compare_swap_if/_while`, `compiled_for_while`,
+     `compiled_while_dowhile`)
+  Not proved: the rewrites that need arrays, switch or calls (switch vs if-chain, register vs constant
+  index, call vs body in place); they are decided by metamorphic co-execution in the check (partial).
 -/
 import CV.Props.C01
 set_option linter.unusedSimpArgs false
 namespace CV.C15
-open CV CV.GenFlat CV.C01
+open CV CV.GenFlat CV.GenStruct CV.C01
 
 theorem comm_law (L : Layout) (m : Mem) (v : String) (op : BOp) (a b : Atom) (h : op.commutes = true) :
     spec L m (.bin v op a b) = spec L m (.bin v op b a) := by
@@ -39,8 +46,8 @@ theorem compiled_equiv (L : Layout) (s₁ s₂ : FStmt) (c : Cpu)
     (hsame : spec L c.mem s₁ = spec L c.mem s₂) :
     ∃ c₁ c₂, execSeq c (genOps L s₁) = some c₁ ∧ execSeq c (genOps L s₂) = some c₂ ∧
       c₁.mem = c₂.mem ∧ c₁.x = c₂.x ∧ c₁.y = c₂.y ∧ c₁.sp = c₂.sp := by
-  obtain ⟨c₁, h1, m1, x1, y1, p1⟩ := gen_stmt_correct L s₁ c
-  obtain ⟨c₂, h2, m2, x2, y2, p2⟩ := gen_stmt_correct L s₂ c
+  obtain ⟨c₁, h1, m1, x1, y1, p1⟩ := C01.gen_stmt_correct L s₁ c
+  obtain ⟨c₂, h2, m2, x2, y2, p2⟩ := C01.gen_stmt_correct L s₂ c
   exact ⟨c₁, c₂, h1, h2, by rw [m1, m2, hsame], by rw [x1, x2], by rw [y1, y2], by rw [p1, p2]⟩
 
 theorem compiled_comm (L : Layout) (c : Cpu) (v : String) (op : BOp) (a b : Atom) (h : op.commutes = true) :
@@ -61,5 +68,351 @@ theorem compiled_incr (L : Layout) (c : Cpu) (v : String) :
 /-! non-vacuity: the two spellings really are different code -/
 example : genText (.inc "a") ≠ genText (.opasg "a" .add (.const 1)) := by decide
 example : genText (.bin "c" .add (.var "a") (.var "b")) ≠ genText (.bin "c" .add (.var "b") (.var "a")) := by decide
+
+/-! ## stage 2: laws of structured statements and their compiled counterparts -/
+
+/-- the source meaning as a relation: some amount of fuel suffices -/
+def Sem (L : Layout) (m : Mem) (st : SStmt) (m' : Mem) : Prop := ∃ f, sem L f m st = some m'
+
+theorem sem_flat (L : Layout) (f : Nat) (m : Mem) (s : FStmt) : sem L (f + 1) m (.flat s) = some (spec L m s) := rfl
+theorem sem_seq (L : Layout) (f : Nat) (m : Mem) (a b : SStmt) :
+    sem L (f + 1) m (.seq a b) = (sem L f m a).bind fun m1 => sem L f m1 b := rfl
+theorem sem_ifThen (L : Layout) (f : Nat) (m : Mem) (c : Cond) (t : SStmt) :
+    sem L (f + 1) m (.ifThen c t) = if evalCond L m c then sem L f m t else some m := rfl
+theorem sem_while (L : Layout) (f : Nat) (m : Mem) (c : Cond) (b : SStmt) :
+    sem L (f + 1) m (.while c b) =
+      if evalCond L m c then (sem L f m b).bind fun m1 => sem L f m1 (.while c b) else some m := rfl
+theorem sem_doWhile (L : Layout) (f : Nat) (m : Mem) (c : Cond) (b : SStmt) :
+    sem L (f + 1) m (.doWhile b c) =
+      (sem L f m b).bind fun m1 => if evalCond L m1 c then sem L f m1 (.doWhile b c) else some m1 := rfl
+theorem sem_for (L : Layout) (f : Nat) (m : Mem) (i u : FStmt) (c : Cond) (b : SStmt) :
+    sem L (f + 1) m (.for i c u b) = sem L f (spec L m i) (.while c (.seq b (.flat u))) := rfl
+
+theorem sem_mono (L : Layout) : ∀ (f : Nat) (m : Mem) (st : SStmt) (m' : Mem),
+    sem L f m st = some m' → sem L (f + 1) m st = some m' := by
+  intro f
+  induction f with
+  | zero => intro m st m' h; simp [sem] at h
+  | succ f ih =>
+    intro m st m' h
+    cases st with
+    | flat s => simpa [sem] using h
+    | skip => simpa [sem] using h
+    | seq a b =>
+      simp only [sem] at h ⊢
+      cases h1 : sem L f m a with
+      | none => simp [h1] at h
+      | some m1 =>
+        simp [h1] at h
+        simp [ih m a m1 h1, ih m1 b m' h]
+    | ifThen c t =>
+      simp only [sem] at h ⊢
+      split at h
+      · rename_i hc; simp [hc, ih m t m' h]
+      · rename_i hc; simp [hc]; simpa using h
+    | ifElse c t e =>
+      simp only [sem] at h ⊢
+      split at h
+      · rename_i hc; simp [hc, ih m t m' h]
+      · rename_i hc; simp [hc, ih m e m' h]
+    | «while» c b =>
+      rw [sem_while] at h ⊢
+      split at h
+      · rename_i hc
+        cases h1 : sem L f m b with
+        | none => simp [h1] at h
+        | some m1 =>
+          simp [h1] at h
+          rw [if_pos hc, ih m b m1 h1]
+          exact ih m1 _ m' h
+      · rename_i hc; rw [if_neg hc]; exact h
+    | doWhile b c =>
+      rw [sem_doWhile] at h ⊢
+      cases h1 : sem L f m b with
+      | none => simp [h1] at h
+      | some m1 =>
+        simp [h1] at h
+        rw [ih m b m1 h1]
+        simp only [Option.bind_some]
+        split at h
+        · rename_i hc; rw [if_pos hc]; exact ih m1 _ m' h
+        · rename_i hc; rw [if_neg hc]; exact h
+    | «for» i c u b =>
+      simp only [sem] at h ⊢
+      exact ih _ _ _ h
+
+theorem sem_mono_add (L : Layout) (f k : Nat) (m : Mem) (st : SStmt) (m' : Mem)
+    (h : sem L f m st = some m') : sem L (f + k) m st = some m' := by
+  induction k with
+  | zero => exact h
+  | succ k ih => exact sem_mono L _ _ _ _ ih
+
+/-- the source meaning is a partial function -/
+theorem Sem.det {L : Layout} {m : Mem} {st : SStmt} {m1 m2 : Mem} (h1 : Sem L m st m1) (h2 : Sem L m st m2) : m1 = m2 := by
+  obtain ⟨f1, e1⟩ := h1
+  obtain ⟨f2, e2⟩ := h2
+  have a := sem_mono_add L f1 f2 m st m1 e1
+  have b := sem_mono_add L f2 f1 m st m2 e2
+  rw [Nat.add_comm] at b
+  rw [a] at b
+  exact Option.some.inj b
+
+/-- two spellings with the same source meaning compile to code with the same behaviour, from every
+    machine state: both runs end, in the same memory, with X, Y, SP as they were -/
+theorem same_meaning_same_behaviour (L : Layout) (st₁ st₂ : SStmt)
+    (h₁ : SInFragment st₁ = true) (h₂ : SInFragment st₂ = true)
+    (s : Cpu) (m' : Mem) (hs₁ : Sem L s.mem st₁ m') (hs₂ : Sem L s.mem st₂ m') :
+    ∃ s₁ s₂ n₁ n₂,
+      runG L (gen {} st₁).1 (gen {} st₁).1.length n₁ 0 s = some s₁ ∧
+      runG L (gen {} st₂).1 (gen {} st₂).1.length n₂ 0 s = some s₂ ∧
+      s₁.mem = s₂.mem ∧ s₁.x = s₂.x ∧ s₁.y = s₂.y ∧ s₁.sp = s₂.sp := by
+  obtain ⟨f1, e1⟩ := hs₁
+  obtain ⟨f2, e2⟩ := hs₂
+  obtain ⟨s1, n1, r1, m1, x1, y1, p1⟩ := struct_program_correct L st₁ f1 s.mem m' e1 h₁ s rfl
+  obtain ⟨s2, n2, r2, m2, x2, y2, p2⟩ := struct_program_correct L st₂ f2 s.mem m' e2 h₂ s rfl
+  exact ⟨s1, s2, n1, n2, r1, r2, by rw [m1, m2], by rw [x1, x2], by rw [y1, y2], by rw [p1, p2]⟩
+
+/-! ### the laws -/
+
+def Cond.not : Cond → Cond
+  | .cmp op a b => .cmp op.negate a b
+  | .truth v => .nottruth v
+  | .nottruth v => .truth v
+
+/-- `a ⋈ b` written from the other side -/
+def Cond.swap : Cond → Cond
+  | .cmp op a b => .cmp op.mirror b a
+  | c => c
+
+theorem evalCond_not (L : Layout) (m : Mem) (c : Cond) : evalCond L m (Cond.not c) = !evalCond L m c := by
+  cases c with
+  | cmp op a b => simp [Cond.not, evalCond, negate_means_not]
+  | truth v => simp [Cond.not, evalCond, bne]
+  | nottruth v => simp [Cond.not, evalCond, bne]
+
+theorem evalCond_swap (L : Layout) (m : Mem) (c : Cond) : evalCond L m (Cond.swap c) = evalCond L m c := by
+  cases c with
+  | cmp op a b => simp [Cond.swap, evalCond, mirror_means_swap]
+  | truth v => rfl
+  | nottruth v => rfl
+
+/-- `if (c) A else B` ≡ `if (!c) B else A` -/
+theorem if_else_swap_law (L : Layout) (f : Nat) (m : Mem) (c : Cond) (t e : SStmt) :
+    sem L f m (.ifElse c t e) = sem L f m (.ifElse (Cond.not c) e t) := by
+  cases f with
+  | zero => rfl
+  | succ f => simp only [sem, evalCond_not]; cases evalCond L m c <;> simp
+
+/-- replacing a loop / branch condition by one with the same truth value everywhere -/
+theorem cond_congr (L : Layout) (c c' : Cond) (hc : ∀ m, evalCond L m c = evalCond L m c') :
+    ∀ (f : Nat) (m : Mem),
+      (∀ t, sem L f m (.ifThen c t) = sem L f m (.ifThen c' t)) ∧
+      (∀ t e, sem L f m (.ifElse c t e) = sem L f m (.ifElse c' t e)) ∧
+      (∀ b, sem L f m (.while c b) = sem L f m (.while c' b)) ∧
+      (∀ b, sem L f m (.doWhile b c) = sem L f m (.doWhile b c')) ∧
+      (∀ i u b, sem L f m (.for i c u b) = sem L f m (.for i c' u b)) := by
+  intro f
+  induction f with
+  | zero => intro m; simp [sem]
+  | succ f ih =>
+    intro m
+    refine ⟨?_, ?_, ?_, ?_, ?_⟩
+    · intro t; simp only [sem, hc]
+    · intro t e; simp only [sem, hc]
+    · intro b
+      simp only [sem, hc]
+      split
+      · cases sem L f m b with
+        | none => rfl
+        | some m1 => simp [(ih m1).2.2.1 b]
+      · rfl
+    · intro b
+      simp only [sem]
+      cases sem L f m b with
+      | none => rfl
+      | some m1 => simp [hc, (ih m1).2.2.2.1 b]
+    · intro i u b
+      simp only [sem]
+      exact (ih _).2.2.1 _
+
+/-- `a < b` ≡ `b > a` (and the other five operators) wherever a condition stands -/
+theorem compare_swap_law (L : Layout) (c : Cond) (f : Nat) (m : Mem) :
+    (∀ t, sem L f m (.ifThen c t) = sem L f m (.ifThen (Cond.swap c) t)) ∧
+    (∀ t e, sem L f m (.ifElse c t e) = sem L f m (.ifElse (Cond.swap c) t e)) ∧
+    (∀ b, sem L f m (.while c b) = sem L f m (.while (Cond.swap c) b)) ∧
+    (∀ b, sem L f m (.doWhile b c) = sem L f m (.doWhile b (Cond.swap c))) ∧
+    (∀ i u b, sem L f m (.for i c u b) = sem L f m (.for i (Cond.swap c) u b)) :=
+  cond_congr L c (Cond.swap c) (fun m => (evalCond_swap L m c).symm) f m
+
+/-- `for (i; c; u) S` ≡ `i; while (c) { S; u; }` -/
+theorem for_while_law (L : Layout) (m m' : Mem) (i u : FStmt) (c : Cond) (b : SStmt) :
+    Sem L m (.for i c u b) m' ↔ Sem L m (.seq (.flat i) (.while c (.seq b (.flat u)))) m' := by
+  constructor
+  · rintro ⟨f, h⟩
+    cases f with
+    | zero => simp [sem] at h
+    | succ f =>
+      rw [sem_for] at h
+      refine ⟨f + 2, ?_⟩
+      have := sem_mono L f _ _ _ h
+      rw [sem_seq, sem_flat]
+      exact this
+  · rintro ⟨f, h⟩
+    cases f with
+    | zero => simp [sem] at h
+    | succ f =>
+      rw [sem_seq] at h
+      cases f with
+      | zero => simp [sem] at h
+      | succ f =>
+        rw [sem_flat] at h
+        exact ⟨f + 2, by rw [sem_for]; exact h⟩
+
+/-- `while (c) S` ≡ `if (c) do S while (c);` -/
+theorem while_dowhile_law (L : Layout) (c : Cond) (b : SStmt) : ∀ (m m' : Mem),
+    Sem L m (.while c b) m' ↔ Sem L m (.ifThen c (.doWhile b c)) m' := by
+  have fwd : ∀ f m m', sem L f m (.while c b) = some m' → Sem L m (.ifThen c (.doWhile b c)) m' := by
+    intro f
+    induction f with
+    | zero => intro m m' h; simp [sem] at h
+    | succ f ih =>
+      intro m m' h
+      rw [sem_while] at h
+      by_cases hc : evalCond L m c = true
+      · rw [if_pos hc] at h
+        cases h1 : sem L f m b with
+        | none => simp [h1] at h
+        | some m1 =>
+          simp [h1] at h
+          obtain ⟨f2, h2⟩ := ih m1 m' h
+          cases f2 with
+          | zero => simp [sem] at h2
+          | succ f2 =>
+            rw [sem_ifThen] at h2
+            refine ⟨f + f2 + 2, ?_⟩
+            rw [sem_ifThen, if_pos hc, sem_doWhile, sem_mono_add L f f2 m b m1 h1]
+            simp only [Option.bind_some]
+            by_cases hc1 : evalCond L m1 c = true
+            · rw [if_pos hc1] at h2 ⊢
+              have := sem_mono_add L f2 f m1 _ m' h2
+              rw [Nat.add_comm] at this
+              exact this
+            · rw [if_neg hc1] at h2 ⊢
+              exact h2
+      · rw [if_neg hc] at h
+        exact ⟨1, by rw [sem_ifThen, if_neg hc]; exact h⟩
+  have bwd : ∀ f m m', sem L f m (.doWhile b c) = some m' → evalCond L m c = true → Sem L m (.while c b) m' := by
+    intro f
+    induction f with
+    | zero => intro m m' h; simp [sem] at h
+    | succ f ih =>
+      intro m m' h hc
+      rw [sem_doWhile] at h
+      cases h1 : sem L f m b with
+      | none => simp [h1] at h
+      | some m1 =>
+        simp only [h1, Option.bind_some] at h
+        by_cases hc1 : evalCond L m1 c = true
+        · rw [if_pos hc1] at h
+          obtain ⟨f2, h2⟩ := ih m1 m' h hc1
+          refine ⟨f + f2 + 1, ?_⟩
+          rw [sem_while, if_pos hc, sem_mono_add L f f2 m b m1 h1]
+          simp only [Option.bind_some]
+          have := sem_mono_add L f2 f m1 _ m' h2
+          rw [Nat.add_comm] at this
+          exact this
+        · rw [if_neg hc1] at h
+          refine ⟨f + 2, ?_⟩
+          rw [sem_while, if_pos hc, sem_mono L f m b m1 h1]
+          simp only [Option.bind_some]
+          rw [sem_while, if_neg hc1]
+          exact h
+  intro m m'
+  constructor
+  · rintro ⟨f, h⟩; exact fwd f m m' h
+  · rintro ⟨f, h⟩
+    cases f with
+    | zero => simp [sem] at h
+    | succ f =>
+      rw [sem_ifThen] at h
+      by_cases hc : evalCond L m c = true
+      · rw [if_pos hc] at h
+        exact bwd f m m' h hc
+      · rw [if_neg hc] at h
+        exact ⟨1, by rw [sem_while, if_neg hc]; exact h⟩
+
+
+/-! ### compiled counterparts -/
+
+/-- two spellings related by a law (same meaning from this memory) behave identically when compiled -/
+theorem compiled_equiv_struct (L : Layout) (st₁ st₂ : SStmt)
+    (h₁ : SInFragment st₁ = true) (h₂ : SInFragment st₂ = true) (s : Cpu)
+    (hlaw : ∀ m', Sem L s.mem st₁ m' ↔ Sem L s.mem st₂ m') (m' : Mem) (hterm : Sem L s.mem st₁ m') :
+    ∃ s₁ s₂ n₁ n₂,
+      runG L (gen {} st₁).1 (gen {} st₁).1.length n₁ 0 s = some s₁ ∧
+      runG L (gen {} st₂).1 (gen {} st₂).1.length n₂ 0 s = some s₂ ∧
+      s₁.mem = s₂.mem ∧ s₁.x = s₂.x ∧ s₁.y = s₂.y ∧ s₁.sp = s₂.sp :=
+  same_meaning_same_behaviour L st₁ st₂ h₁ h₂ s m' hterm ((hlaw m').mp hterm)
+
+theorem compiled_if_else_swap (L : Layout) (c : Cond) (t e : SStmt)
+    (h₁ : SInFragment (.ifElse c t e) = true) (h₂ : SInFragment (.ifElse (Cond.not c) e t) = true)
+    (s : Cpu) (m' : Mem) (hterm : Sem L s.mem (.ifElse c t e) m') :
+    ∃ s₁ s₂ n₁ n₂,
+      runG L (gen {} (.ifElse c t e)).1 (gen {} (.ifElse c t e)).1.length n₁ 0 s = some s₁ ∧
+      runG L (gen {} (.ifElse (Cond.not c) e t)).1 (gen {} (.ifElse (Cond.not c) e t)).1.length n₂ 0 s = some s₂ ∧
+      s₁.mem = s₂.mem ∧ s₁.x = s₂.x ∧ s₁.y = s₂.y ∧ s₁.sp = s₂.sp :=
+  compiled_equiv_struct L _ _ h₁ h₂ s
+    (fun m' => ⟨fun ⟨f, h⟩ => ⟨f, by rw [← if_else_swap_law]; exact h⟩, fun ⟨f, h⟩ => ⟨f, by rw [if_else_swap_law]; exact h⟩⟩) m' hterm
+
+theorem compiled_for_while (L : Layout) (i u : FStmt) (c : Cond) (b : SStmt)
+    (h₁ : SInFragment (.for i c u b) = true) (h₂ : SInFragment (.seq (.flat i) (.while c (.seq b (.flat u)))) = true)
+    (s : Cpu) (m' : Mem) (hterm : Sem L s.mem (.for i c u b) m') :
+    ∃ s₁ s₂ n₁ n₂,
+      runG L (gen {} (.for i c u b)).1 (gen {} (.for i c u b)).1.length n₁ 0 s = some s₁ ∧
+      runG L (gen {} (.seq (.flat i) (.while c (.seq b (.flat u))))).1
+        (gen {} (.seq (.flat i) (.while c (.seq b (.flat u))))).1.length n₂ 0 s = some s₂ ∧
+      s₁.mem = s₂.mem ∧ s₁.x = s₂.x ∧ s₁.y = s₂.y ∧ s₁.sp = s₂.sp :=
+  compiled_equiv_struct L _ _ h₁ h₂ s (fun m' => for_while_law L s.mem m' i u c b) m' hterm
+
+theorem compiled_while_dowhile (L : Layout) (c : Cond) (b : SStmt)
+    (h₁ : SInFragment (.while c b) = true) (h₂ : SInFragment (.ifThen c (.doWhile b c)) = true)
+    (s : Cpu) (m' : Mem) (hterm : Sem L s.mem (.while c b) m') :
+    ∃ s₁ s₂ n₁ n₂,
+      runG L (gen {} (.while c b)).1 (gen {} (.while c b)).1.length n₁ 0 s = some s₁ ∧
+      runG L (gen {} (.ifThen c (.doWhile b c))).1 (gen {} (.ifThen c (.doWhile b c))).1.length n₂ 0 s = some s₂ ∧
+      s₁.mem = s₂.mem ∧ s₁.x = s₂.x ∧ s₁.y = s₂.y ∧ s₁.sp = s₂.sp :=
+  compiled_equiv_struct L _ _ h₁ h₂ s (fun m' => while_dowhile_law L c b s.mem m') m' hterm
+
+theorem compiled_compare_swap_if (L : Layout) (c : Cond) (t e : SStmt)
+    (h₁ : SInFragment (.ifElse c t e) = true) (h₂ : SInFragment (.ifElse (Cond.swap c) t e) = true)
+    (s : Cpu) (m' : Mem) (hterm : Sem L s.mem (.ifElse c t e) m') :
+    ∃ s₁ s₂ n₁ n₂,
+      runG L (gen {} (.ifElse c t e)).1 (gen {} (.ifElse c t e)).1.length n₁ 0 s = some s₁ ∧
+      runG L (gen {} (.ifElse (Cond.swap c) t e)).1 (gen {} (.ifElse (Cond.swap c) t e)).1.length n₂ 0 s = some s₂ ∧
+      s₁.mem = s₂.mem ∧ s₁.x = s₂.x ∧ s₁.y = s₂.y ∧ s₁.sp = s₂.sp :=
+  compiled_equiv_struct L _ _ h₁ h₂ s
+    (fun m' => ⟨fun ⟨f, h⟩ => ⟨f, by rw [← (compare_swap_law L c f s.mem).2.1]; exact h⟩,
+                fun ⟨f, h⟩ => ⟨f, by rw [(compare_swap_law L c f s.mem).2.1]; exact h⟩⟩) m' hterm
+
+theorem compiled_compare_swap_while (L : Layout) (c : Cond) (b : SStmt)
+    (h₁ : SInFragment (.while c b) = true) (h₂ : SInFragment (.while (Cond.swap c) b) = true)
+    (s : Cpu) (m' : Mem) (hterm : Sem L s.mem (.while c b) m') :
+    ∃ s₁ s₂ n₁ n₂,
+      runG L (gen {} (.while c b)).1 (gen {} (.while c b)).1.length n₁ 0 s = some s₁ ∧
+      runG L (gen {} (.while (Cond.swap c) b)).1 (gen {} (.while (Cond.swap c) b)).1.length n₂ 0 s = some s₂ ∧
+      s₁.mem = s₂.mem ∧ s₁.x = s₂.x ∧ s₁.y = s₂.y ∧ s₁.sp = s₂.sp :=
+  compiled_equiv_struct L _ _ h₁ h₂ s
+    (fun m' => ⟨fun ⟨f, h⟩ => ⟨f, by rw [← (compare_swap_law L c f s.mem).2.2.1]; exact h⟩,
+                fun ⟨f, h⟩ => ⟨f, by rw [(compare_swap_law L c f s.mem).2.2.1]; exact h⟩⟩) m' hterm
+
+/-! non-vacuity: the spellings are different code, and both are in the fragment -/
+def demoC : Cond := .cmp .lt (.var "a") (.var "b")
+example : (gen {} (.ifElse demoC (.flat (.inc "c")) (.flat (.dec "c")))).1
+    ≠ (gen {} (.ifElse (Cond.not demoC) (.flat (.dec "c")) (.flat (.inc "c")))).1 := by decide
+example : (gen {} (.while demoC (.flat (.inc "a")))).1 ≠ (gen {} (.while (Cond.swap demoC) (.flat (.inc "a")))).1 := by decide
+example : (gen {} (.for (.asg "a" (.const 0)) demoC (.inc "a") (.flat (.inc "c")))).1
+    ≠ (gen {} (.seq (.flat (.asg "a" (.const 0))) (.while demoC (.seq (.flat (.inc "c")) (.flat (.inc "a")))))).1 := by decide
+example : SInFragment (.ifElse (Cond.not demoC) (.flat (.dec "c")) (.flat (.inc "c"))) = true := by decide
+example : SInFragment (.while (Cond.swap demoC) (.flat (.inc "a"))) = true := by decide
 
 end CV.C15
